@@ -149,9 +149,36 @@ static void mempool_owner_monitor(int kind, const void *p1, const void *p2, long
                 kind == 80 ? "alloc" : "free");
 }
 
+/* C02 / C11 monitor: the argument block of ABTI_ythread_callback_resume_yield_to lives on the stack of the unit that
+ * switched away.  The callback pushes that unit back to its pool; from then on another stream may run it and reuse the
+ * stack, so the callback must have taken what it needs out of the block before ("do not access it after that ULT
+ * becomes resumable" in ythread.c).  The block is poisoned the moment the unit is pushed: a later read through it
+ * dereferences garbage deterministically instead of only when the other stream happens to be fast enough. */
+static struct { const void *arg; const void *prev; } cb36[VSA_MAXT];
+static void cb_arg_poison_monitor(int kind, const void *p1, const void *p2, long v)
+{
+    (void)v;
+    int t = vs_tid();
+    if (t < 0 || t >= VSA_MAXT)
+        return;
+    if (kind == 36 && p1) {
+        cb36[t].arg = p1;
+        cb36[t].prev = *(void *const *)p1;
+    } else if (kind == 20 && cb36[t].arg) {
+        if ((const void *)((uintptr_t)p2 & ~(uintptr_t)1) == cb36[t].prev) {
+            memset((void *)(uintptr_t)cb36[t].arg, 0x5a, 2 * sizeof(void *));
+            vs_note("cbArgPoisoned 36");
+        }
+        cb36[t].arg = NULL;
+    } else if (kind == 5 || kind == 6 || kind == 8 || kind == 9) {
+        cb36[t].arg = NULL; /* the callback is over */
+    }
+}
+
 static void vsa_event_monitor(int kind, const void *p1, const void *p2, long v)
 {
     cb_stack_monitor(kind, p1, p2, v);
+    cb_arg_poison_monitor(kind, p1, p2, v);
     mempool_owner_monitor(kind, p1, p2, v);
 }
 
